@@ -42,7 +42,7 @@ MANIFEST = dict(
     note='Trusted: Lean kernel; translator + harness; Python set/dict/list.remove semantics; key values hashable. The '
          'invariant relates the indices to the key values at the last accepted (re-)index; that the MDIB code re-indexes '
          'after every attribute change is checked by the scan oracle on real transactions / reports (tested, not proved). '
-         'Known finding: the consumer does not re-index an updated descriptor (stale source / condition_signaled index).',
+         'Repaired in /repo: non-atomic rejected add/update (126f65e); consumer did not re-index an updated descriptor (91d9de4).',
     ref='5 C11')
 DRIVERS = ['drv_c11']
 RULE = ('one case = (index definitions, operation sequence) on a MultiKeyLookup, or one transaction / one delivered report '
@@ -57,7 +57,8 @@ ASSUMPTIONS = ['key functions are pure attribute reads', 'single-threaded use of
 
 DRIVER_BIN = os.path.join(core.LEAN, '.lake', 'build', 'bin', 'drv_c11')
 MISSING = '__missing__'
-MDIB_FILES = ['/repo/tests/70041_MDIB_Final.xml', '/repo/tests/70041_MDIB_multi.xml', '/repo/tests/mdib_two_mds.xml']
+REPO = os.environ.get('VERIF_REPO', '/repo')
+MDIB_FILES = [REPO + '/tests/70041_MDIB_Final.xml', REPO + '/tests/70041_MDIB_multi.xml', REPO + '/tests/mdib_two_mds.xml']
 
 
 # ------------------------------------------------------------------------------------------------------------------
@@ -267,14 +268,17 @@ class Impl:
             elif k == 'updm' and res == 'ok':
                 self.pending -= set(op[1])
         elif k == 'get':
-            r = self.idxs[op[1]].get(dec(op[2]))
-            return 'none' if r is None else ','.join(str(self.num[id(o)]) for o in r)
+            try:
+                r = self.idxs[op[1]].get(dec(op[2]))
+            except Exception as ex:  # noqa: BLE001
+                return 'err ' + type(ex).__name__
+            return 'none' if r is None else ','.join(str(self.num.get(id(o), 999)) for o in r)
         elif k == 'has':
             return 'true' if dec(op[2]) in self.idxs[op[1]] else 'false'
         elif k == 'one':
             try:
                 r = self.idxs[op[1]].get_one(dec(op[2]), allow_none=bool(op[3]))
-            except (KeyError, ValueError) as ex:
+            except Exception as ex:  # noqa: BLE001
                 return 'err ' + type(ex).__name__
             return 'ok none' if r is None else f'ok {self.num[id(r)]}'
         else:
